@@ -1,13 +1,14 @@
 #!/bin/bash
 # usage: tools/mutant_run.sh <patch.diff|-e 'python edit expr'> <Cxx> [tier]   — applies a change in a scratch worktree and runs a check on it
 set -u
+VROOT="$(cd "$(dirname "$0")/.." && pwd)"
 PATCH="$1"; PROP="$2"; TIER="${3:-quick}"
 WT=$(mktemp -d /tmp/mt_XXXXXX); rmdir "$WT"
 git -C /repo worktree add -q "$WT" HEAD || exit 3
-export VERIF_LEAN_DIR="${WT}_lean"; rsync -a /verif/lean/ "$VERIF_LEAN_DIR"/
+export VERIF_LEAN_DIR="${WT}_lean"; rsync -a "$VROOT"/lean/ "$VERIF_LEAN_DIR"/
 if ! git -C "$WT" apply "$PATCH"; then echo "patch does not apply"; git -C /repo worktree remove --force "$WT"; exit 3; fi
 ( cd "$WT" && /venv/bin/python -c "import sys; sys.path.insert(0,'src'); import morph_kgc" ) || echo "MUTANT DOES NOT IMPORT"
-VERIF_REPO="$WT" /verif/check "$PROP" "$TIER" 2>&1 | grep -v "^KNOWN-FINDING" | tail -4
+VERIF_REPO="$WT" "$VROOT"/check "$PROP" "$TIER" 2>&1 | grep -v "^KNOWN-FINDING" | tail -4
 rc=${PIPESTATUS[0]}
 git -C /repo worktree remove --force "$WT"; rm -rf "$VERIF_LEAN_DIR"   # restore Gen/ from /repo
 exit $rc
